@@ -1,144 +1,8 @@
-// shared trusted prelude of the handler-layer units (opaque foreign types, key-model axioms, std specs)
-// ---- prelude (trusted base) -------------------------------------------------------------------
-pub mod connid {
-    use super::*;
-    #[verifier::external_body]
-    pub struct ConnectionId { _p: () }
-
-    impl ConnectionId {
-        pub uninterp spec fn id(&self) -> int;
-    }
-
-    impl PartialEqSpecImpl for ConnectionId {
-        open spec fn obeys_eq_spec() -> bool { true }
-        open spec fn eq_spec(&self, other: &Self) -> bool { self.id() == other.id() }
-    }
-    impl PartialEq for ConnectionId {
-        #[verifier::external_body]
-        fn eq(&self, other: &Self) -> (r: bool) { unimplemented!() }
-    }
-    impl Eq for ConnectionId {}
-    impl Hash for ConnectionId {
-        #[verifier::external_body]
-        fn hash<H: Hasher>(&self, state: &mut H) { unimplemented!() }
-    }
-    impl Clone for ConnectionId {
-        #[verifier::external_body]
-        fn clone(&self) -> (r: Self)
-            ensures r.id() == self.id()
-        { unimplemented!() }
-    }
-}
-pub use connid::ConnectionId;
-
-macro_rules! opaque_copy_key {
-    ($t:ident) => {
-        verus! {
-        #[verifier::external_body]
-        #[derive(Clone, Copy)]
-        pub struct $t { _p: () }
-        impl PartialEq for $t {
-            #[verifier::external_body]
-            fn eq(&self, other: &Self) -> (r: bool) { unimplemented!() }
-        }
-        impl Eq for $t {}
-        impl Hash for $t {
-            #[verifier::external_body]
-            fn hash<H: Hasher>(&self, state: &mut H) { unimplemented!() }
-        }
-        }
-    };
-}
-opaque_copy_key!(ChannelCookie);
-opaque_copy_key!(ObjectCookie);
-opaque_copy_key!(ServiceCookie);
-opaque_copy_key!(BusListenerCookie);
-opaque_copy_key!(ObjectUuid);
-opaque_copy_key!(ServiceUuid);
-// BusListenerFilter is opaque in the handler units: handlers only pass filters on.
-opaque_copy_key!(BusListenerFilter);
-
-macro_rules! opaque {
-    ($t:ident) => {
-        verus! {
-        #[verifier::external_body]
-        pub struct $t { _p: () }
-        }
-    };
-}
-opaque!(SerializedValue);
-opaque!(VersionedMessage);
-opaque!(ConnectionEvent);
-opaque!(BrokerHandle);
+// shared trusted prelude of the handler-layer units: core part + opaque State / ObjectId / ServiceInfo
+//@include _shared/handler_prelude_core.rs
 opaque!(ServiceInfo);
 opaque!(ObjectId);
 opaque!(State);
-
-// ProtocolVersion: (major, minor) with the lexicographic order that #[derive(PartialOrd)] gives the real struct
-// (core/src/protocol_version.rs; the Kani obligation C12.epoch_mapping exercises the real derived comparisons for all
-// values). ASSUMED: derived PartialEq/PartialOrd = field-wise equality / lexicographic order.
-#[derive(Clone, Copy)]
-pub struct ProtocolVersion { pub major: u32, pub minor: u32 }
-impl ProtocolVersion {
-    pub const V1_16: Self = Self { major: 1, minor: 16 };
-    pub const V1_19: Self = Self { major: 1, minor: 19 };
-
-    pub open spec fn lex_cmp(a: Self, b: Self) -> core::cmp::Ordering {
-        if a.major < b.major { core::cmp::Ordering::Less } else if a.major > b.major { core::cmp::Ordering::Greater }
-        else if a.minor < b.minor { core::cmp::Ordering::Less } else if a.minor > b.minor { core::cmp::Ordering::Greater }
-        else { core::cmp::Ordering::Equal }
-    }
-
-    // a message kind introduced in protocol 1.<min_minor> may be sent to a connection of this version
-    // (min_minor == 0: part of the base protocol, always allowed)
-    pub open spec fn allows(&self, min_minor: u32) -> bool {
-        min_minor == 0 || Self::lex_cmp(*self, ProtocolVersion { major: 1, minor: min_minor }) != core::cmp::Ordering::Less
-    }
-}
-impl PartialEqSpecImpl for ProtocolVersion {
-    open spec fn obeys_eq_spec() -> bool { true }
-    open spec fn eq_spec(&self, other: &Self) -> bool { self.major == other.major && self.minor == other.minor }
-}
-impl PartialEq for ProtocolVersion {
-    #[verifier::external_body]
-    fn eq(&self, other: &Self) -> (r: bool) { unimplemented!() }
-}
-impl PartialOrdSpecImpl for ProtocolVersion {
-    open spec fn obeys_partial_cmp_spec() -> bool { true }
-    open spec fn partial_cmp_spec(&self, other: &Self) -> Option<core::cmp::Ordering> { Some(Self::lex_cmp(*self, *other)) }
-}
-impl PartialOrd for ProtocolVersion {
-    #[verifier::external_body]
-    fn partial_cmp(&self, other: &Self) -> (r: Option<core::cmp::Ordering>) { unimplemented!() }
-}
-
-// Messages: every message type names the protocol minor version that introduced its kind (0 = base protocol).
-// VersionedMessage carries that number as ghost information; ConnectionState::send REQUIRES that the connection's
-// negotiated version allows it. This encodes "the broker never sends a connection a message kind newer than its
-// negotiated version" as a precondition of the (assumed) send primitive, checked at every call site of a verified handler.
-pub trait IntoMessage {
-    spec fn min_minor() -> u32;
-}
-impl VersionedMessage {
-    pub uninterp spec fn min_minor(&self) -> u32;
-
-    #[verifier::external_body]
-    pub fn new<T: IntoMessage>(msg: T, version: Option<ProtocolVersion>) -> (r: Self)
-        ensures r.min_minor() == T::min_minor()
-    { unimplemented!() }
-
-    #[verifier::external_body]
-    pub fn with_version<T: IntoMessage>(msg: T, version: ProtocolVersion) -> (r: Self)
-        ensures r.min_minor() == T::min_minor()
-    { unimplemented!() }
-}
-
-#[verifier::external_body]
-#[verifier::reject_recursive_types(T)]
-pub struct UnboundedSender<T> { _p: core::marker::PhantomData<T> }
-#[verifier::external_body]
-#[verifier::reject_recursive_types(T)]
-pub struct Receiver<T> { _p: core::marker::PhantomData<T> }
 
 impl State {
     #[verifier::external_body]
@@ -146,29 +10,3 @@ impl State {
     #[verifier::external_body]
     pub fn push_abort_function_call(&mut self, callee_serial: u32, callee_id: ConnectionId) { unimplemented!() }
 }
-
-pub mod trusted {
-    use super::*;
-    pub broadcast axiom fn axiom_conn_id_key_model() ensures #[trigger] obeys_key_model::<ConnectionId>();
-    pub broadcast axiom fn axiom_channel_cookie_key_model() ensures #[trigger] obeys_key_model::<ChannelCookie>();
-    pub broadcast axiom fn axiom_object_uuid_key_model() ensures #[trigger] obeys_key_model::<ObjectUuid>();
-    pub broadcast axiom fn axiom_svc_key_model() ensures #[trigger] obeys_key_model::<(ObjectUuid, ServiceUuid)>();
-    pub broadcast axiom fn axiom_bl_cookie_key_model() ensures #[trigger] obeys_key_model::<BusListenerCookie>();
-    pub broadcast axiom fn axiom_filter_key_model() ensures #[trigger] obeys_key_model::<BusListenerFilter>();
-    // ConnectionId: two handles denote the same connection iff their numeric ids are equal (conn_id.rs: Eq, Hash and
-    // the id all derive from the same counter value). ASSUMED.
-    pub broadcast axiom fn axiom_conn_id_injective(a: ConnectionId, b: ConnectionId)
-        ensures #[trigger] a.id() == #[trigger] b.id() <==> a == b;
-}
-broadcast use {
-    trusted::axiom_conn_id_key_model, trusted::axiom_channel_cookie_key_model, trusted::axiom_conn_id_injective,
-    trusted::axiom_bl_cookie_key_model, trusted::axiom_filter_key_model, trusted::axiom_object_uuid_key_model,
-    trusted::axiom_svc_key_model,
-    vstd::std_specs::hash::group_hash_axioms,
-};
-
-pub assume_specification<T>[ std::mem::replace::<T> ](dest: &mut T, src: T) -> (r: T)
-    ensures *final(dest) == src, r == *old(dest);
-
-//@include _shared/std_get_mut_spec.rs
-
